@@ -86,6 +86,62 @@ theorem C08_mix_plscf_cert (Nch Nref Nf n : Nat) (hi : Bool) (Om : Nat → Plscf
     apply Finset.sum_congr rfl; intro p _
     apply Finset.sum_congr rfl; intro b _; ring
 
+/-- **Orthogonal mixing, one order of `pLSCF` (two runs of the model).**  If the model returns for `Sy` and for the mixed
+    array `R·Sy·Qᵀ` and — C05's uniqueness hypotheses, on the first run only — `Ro` and the constrained block of `M` are
+    injective, then on the index ranges of the arrays `M' = (I⊗Q)·M·(I⊗Q)ᵀ`, every denominator coefficient is
+    `A_k' = Q·A_k·Qᵀ` and every numerator coefficient is `B_k' = R·B_k·Qᵀ`: what the harness checks on the arrays returned by
+    the real `plscf.pLSCF`. -/
+theorem C08_mix_plscf_order [DecidableEq K] [Inhabited K] (Nch Nref Nf n : Nat) (hi : Bool) (Om : Nat → Plscf.Cx K)
+    (Sy : Nat → Nat → Nat → Plscf.Cx K) (hN : 0 < Nch) (R Q : Nat → Nat → K)
+    (hQ : OrthoOn Nch Q) (hR : OrthoOn Nref R) (out out' : OrderOut K)
+    (h : plscfOrder Nch Nref Nf n hi Om Sy = some out)
+    (h' : plscfOrder Nch Nref Nf n hi Om (mixSy Nref Nch R Q Sy) = some out')
+    (hRinj : ∀ y : Nat → K,
+      (∀ i < n + 1, ∑ t ∈ range (n + 1), Ro Nf Om i t * y t = 0) → ∀ t < n + 1, y t = 0)
+    (hinj : ∀ y : Nat → K,
+      (∀ I < n * Nch, ∑ J ∈ range (n * Nch),
+        (if hi then out.M I J else out.M (Nch + I) (Nch + J)) * y J = 0) → ∀ J < n * Nch, y J = 0) :
+    (∀ I, I < (n + 1) * Nch → ∀ J, J < (n + 1) * Nch →
+      out'.M I J = ∑ a ∈ range Nch, ∑ b ∈ range Nch, Q (I % Nch) a * Q (J % Nch) b
+        * out.M (I / Nch * Nch + a) (J / Nch * Nch + b)) ∧
+    (∀ k, k < n + 1 → ∀ a, a < Nch → ∀ b, b < Nch →
+      (adOf Nch n out'.alpha).blk k a b
+        = ∑ a' ∈ range Nch, ∑ b' ∈ range Nch, Q a a' * Q b b' * (adOf Nch n out.alpha).blk k a' b') ∧
+    (∀ k, k < n + 1 → ∀ o, o < Nref → ∀ c, c < Nch →
+      (bnOf Nch Nref n out'.beta).blk k o c
+        = ∑ p ∈ range Nref, ∑ b ∈ range Nch, R o p * Q c b * (bnOf Nch Nref n out.beta).blk k p b) := by
+  obtain ⟨X, Z, cert⟩ := plscfOrder_sound Nch Nref Nf n hi Om Sy out h
+  obtain ⟨X', Z', cert'⟩ := plscfOrder_sound Nch Nref Nf n hi Om _ out' h'
+  obtain ⟨certm, hAk, hBk⟩ := C08_mix_plscf_cert Nch Nref Nf n hi Om Sy out X Z cert hN R Q hQ hR
+  have hQ2 := Orth2.of_cols hQ
+  have hinj' : ∀ y : Nat → K,
+      (∀ I < n * Nch, ∑ J ∈ range (n * Nch),
+        (if hi then (mixOut Nch Nref n hi R Q out Z).M I J
+          else (mixOut Nch Nref n hi R Q out Z).M (Nch + I) (Nch + J)) * y J = 0) → ∀ J < n * Nch, y J = 0 := by
+    cases hi
+    · simp only [Bool.false_eq_true, if_false] at hinj ⊢
+      have := inj_mix (nb := n) hN Q hQ2 (fun I J => out.M (Nch + I) (Nch + J)) hinj
+      intro y hy
+      apply this y
+      intro I hI
+      rw [← hy I hI]
+      apply Finset.sum_congr rfl; intro J _
+      show _ = bmix2 Nch Q out.M (Nch + I) (Nch + J) * y J
+      rw [bmix2_shift1 hN]
+    · simp only [if_true] at hinj ⊢
+      exact inj_mix (nb := n) hN Q hQ2 out.M hinj
+  obtain ⟨hM, hA, hB⟩ := cert_unique certm cert' hRinj hinj'
+  refine ⟨?_, ?_, ?_⟩
+  · intro I hI J hJ
+    rw [hM I hI J hJ]
+    simp only [mixOut, bmix2, sumTo_eq]
+  · intro k hk a ha b hb
+    rw [← hAk k hk a ha b hb]
+    exact hA _ (Plscf.blk_lt hk ha) b hb
+  · intro k hk o ho c hc
+    rw [← hBk k o c]
+    exact hB o ho k hk c hc
+
 /-- **Orthogonal mixing, `rmfd2ac` (record transport).**  Coefficients related as in `C08_mix_plscf_cert`
     (`alpha' = (I⊗Q)·alpha·Qᵀ`, `beta' = R·beta·Qᵀ` on the arrays).  For every exact record `P` of the solves
     `np.linalg.solve(Ad_last, Adi)` of the original run, the conjugated record `Q·P_k·Qᵀ` is an exact record for the mixed
@@ -184,9 +240,24 @@ example : True := by
   have := C08_mix_plscf_poles 2 2 3 1 false exOm pSy out X Z cert (by decide) rotQ rotQ rotQ_ortho rotQ_ortho P A C rc
   trivial
 
--- the model itself returns for the rotated array as well (so "two runs" is a non-empty situation)
-example : ((plscfOrder 2 2 3 1 false exOm (mixSy 2 2 rotQ rotQ pSy)).bind fun out' =>
+-- the model itself returns for the rotated array as well, and `rmfd2ac` on its coefficients
+theorem ex_mix_run : ((plscfOrder 2 2 3 1 false exOm (mixSy 2 2 rotQ rotQ pSy)).bind fun out' =>
     (rmfd2ac (adOf 2 1 out'.alpha) (bnOf 2 2 1 out'.beta)).map fun _ => true) = some true := by decide +kernel
+
+-- every hypothesis of the two-run theorem `C08_mix_plscf_order` holds jointly on this instance
+example : True := by
+  obtain ⟨out, _, _, _, _, _, h, _, hM, _, _, _⟩ := ex_perm_runs
+  have hinj : ∀ y : Nat → Rat, (∀ I < 1 * 2, ∑ J ∈ range (1 * 2),
+      (if false = true then out.M I J else out.M (2 + I) (2 + J)) * y J = 0) → ∀ J < 1 * 2, y J = 0 := by
+    intro y hy
+    exact inj2 (fun I J => out.M (2 + I) (2 + J)) hM y
+      (by simpa only [Bool.false_eq_true, if_false, Nat.one_mul] using hy)
+  cases ho' : plscfOrder 2 2 3 1 false exOm (mixSy 2 2 rotQ rotQ pSy) with
+  | none => have := ex_mix_run; rw [ho'] at this; simp at this
+  | some out' =>
+    have := C08_mix_plscf_order 2 2 3 1 false exOm pSy (by decide) rotQ rotQ rotQ_ortho rotQ_ortho out out' h ho'
+      ex_Ro_inj hinj
+    trivial
 
 end examples
 
